@@ -270,3 +270,11 @@ Definition sc_world (sc : scen) : world :=
 
 Definition model_obs (sc : scen) : list callobs :=
   snd (hrun (sc_env sc) (sc_nlocks sc) (sc_npids sc) (mkh (sc_world sc) (fun _ => tl0) false) (sc_hist sc)).
+
+(* the raw operations a call blocked on / was granted, in order *)
+Definition blk_locks (evs : list ev) : list lock :=
+  flat_map (fun e => match e with
+                     | ERaw _ k l RUnit => if rop_blocking k then [l] else []
+                     | _ => []
+                     end) evs.
+
